@@ -50,12 +50,28 @@ pub mod shims {
     /// appended a part of its output: the line is then that part plus the line ending.
     pub uninterp spec fn fmt_bytes(f: VFormatFn, record: &log::Record) -> Seq<u8>;
     pub uninterp spec fn fmt_ok(f: VFormatFn, record: &log::Record) -> bool;
+    /// token fact (C10): the user-supplied format code of this record has run (only `VFormatFn::call` establishes it); the
+    /// state lock may only be taken afterwards (R27) - format / Display code may log recursively and must not meet a held lock
+    pub trait VLockLate<T> {
+        fn vlock_late(&self) -> (r: std::sync::LockResult<std::sync::MutexGuard<'_, T>>)
+            requires
+                fmt_done_any(), //@label Mutex::lock.after_format C10
+            ensures r is Ok <==> !mutex_poisoned(self.the_mutex()), r is Ok ==> mguard_content(&r->Ok_0) == mutex_content(self.the_mutex()) && mutex_after(self.the_mutex()) == mguard_final(&r->Ok_0);
+        spec fn the_mutex(&self) -> &std::sync::Mutex<T>;
+    }
+    impl<T> VLockLate<T> for std::sync::Mutex<T> {
+        open spec fn the_mutex(&self) -> &std::sync::Mutex<T> { self }
+        #[verifier::external_body]
+        fn vlock_late(&self) -> (r: std::sync::LockResult<std::sync::MutexGuard<'_, T>>)
+        { self.lock() }
+    }
+    pub uninterp spec fn fmt_done_any() -> bool;
     impl VFormatFn {
         #[verifier::external_body]
         pub fn call(&self, w: &mut Vec<u8>, now: &mut DeferredNow, record: &log::Record) -> (r: Result<(), std::io::Error>)
             requires
                 now_ok(old(now).origin()), //@label FormatFunction::call.same_now C20
-            ensures final(w)@ == old(w)@ + fmt_bytes(*self, record), r is Ok <==> fmt_ok(*self, record), final(now).origin() == old(now).origin(),
+            ensures final(w)@ == old(w)@ + fmt_bytes(*self, record), r is Ok <==> fmt_ok(*self, record), final(now).origin() == old(now).origin(), fmt_done_any(),
         { unimplemented!() }
     }
     /// SHIM for std::time::Duration (only compared with ZERO_DURATION here): a number of nanoseconds
@@ -159,6 +175,7 @@ pub mod state_handle {
     //@   block Ok(mut buffer) =>
     //@   rename sync_write_tl
     //@   rule R4c 1
+    //@   rule R27 *
     //@   rule R3 *
 
     /// `Err(_e)` arm: recursive logging, a temporary buffer is used; the line ending is read from the State's
@@ -178,6 +195,7 @@ pub mod state_handle {
     //@   block Err(_e) =>
     //@   rename sync_write_tmp
     //@   rule R4c 1
+    //@   rule R27 *
     //@   rule R3 *
 }
 pub mod util_wb {
